@@ -72,8 +72,9 @@ def L1(ctx, rule="L1"):
                   "for_each_concurrent consumes the READY stream (ids dequeued from the ready channel)",
                   "for_each_concurrent consumes %s" % [fmt_src(s) for s in ssrc][:4])
     ctx.counts[rule] = n
-    if len(sinks) < 4:
-        ctx.unverifiable(rule, "floor", "-", "expected 4 for_each_concurrent sites, found %d" % len(sinks))
+    for (b, bb, t) in sinks:
+        ctx.cover(rule, b.id)
+    ctx.entry_floor(rule, rule, ("for_each", "try_for_each"), "for_each_concurrent call")
 
 
 def L3(ctx, rule="L3"):
@@ -107,8 +108,8 @@ def L3(ctx, rule="L3"):
         ctx.check(not bad, rule, "limit-only-limits|%s" % e["name"], entry_where(e),
                   "`limit` reaches no call other than for_each_concurrent's limit argument",
                   "`limit` also determines %s: a small limit can block completion" % bad[:3])
-    if n < 12:
-        ctx.unverifiable(rule, "floor", "-", "expected 12 entry points with a limit, found %d" % n)
+    if n < 1:
+        ctx.unverifiable(rule, "floor", "-", "no entry point with a `limit` parameter found")
 
 
 def W4(ctx, rule="W4"):
@@ -137,8 +138,8 @@ def W4(ctx, rule="W4"):
         ctx.check(ok, rule, "limit-reaches|%s" % e["name"], entry_where(e),
                   "the caller's `limit` determines for_each_concurrent's limit argument",
                   "the caller's `limit` does not reach for_each_concurrent: the concurrency is fixed by the library")
-    if n < 12:
-        ctx.unverifiable(rule, "floor", "-", "expected 12 entry points with a limit, found %d" % n)
+    if n < 1:
+        ctx.unverifiable(rule, "floor", "-", "no entry point with a `limit` parameter found")
 
 
 def L2(ctx, rule="L2"):
@@ -155,6 +156,7 @@ def L2(ctx, rule="L2"):
                 continue
             seen.add(b.id)
             n += 1
+            ctx.cover(rule, b.id)
             key = short(b.id)
             uas = user_awaits(ctx, b)
             pcs = m.param_calls(b)
@@ -180,8 +182,7 @@ def L2(ctx, rule="L2"):
                       "the step closure is driven by %s (sequential by construction)" % (cons[0].split("::")[-1] if cons else "?"),
                       "the step closure is driven by %s" % cons)
     ctx.counts[rule] = n
-    if n < 4:
-        ctx.unverifiable(rule, "floor", "-", "expected 4 fold/try_fold step bodies, found %d" % n)
+    ctx.entry_floor(rule, rule, ("fold", "try_fold"), "fold step body awaiting the user future")
 
 
 # ---------------------------------------------------------------------------
@@ -251,9 +252,11 @@ def F_rules(ctx, rule="F"):
             # control-wrapper adapter closure: F4
             if b.kind == "closure":
                 n_adapter += 1
+                ctx.cover(rule + "4", b.id)
                 F4_adapter(ctx, rule + "4", b)
             continue
         n_internal += 1
+        ctx.cover(rule + "1", b.id)
         where = m.where(b, rs[0]["bb"])
         # F1: exactly one RESULT send, carrying the user's error, on the Err arm
         ok1 = len(rs) == 1 and not b.back_edges_in_user_code() if hasattr(b, "back_edges_in_user_code") else len(rs) == 1
@@ -303,6 +306,7 @@ def F_rules(ctx, rule="F"):
         if par is None:
             continue
         n3 += 1
+        ctx.cover(rule + "3", par.id)
         key = short(par.id)
         # the poll_fn(closure).collect().await in `par`; the join await must dominate it
         site = None
@@ -356,6 +360,7 @@ def F_rules(ctx, rule="F"):
                 continue
             seen.add(b.id)
             n5 += 1
+            ctx.cover(rule + "5", b.id)
             key = short(b.id)
             esrc = fl.sources_local(b, 0, ("E",))
             ok = bool(esrc) and all(s.kind == "userfut" and s[2] == ("E",) for s in esrc)
@@ -370,14 +375,15 @@ def F_rules(ctx, rule="F"):
                       "no call through the callback parameter is reachable after the error return within the step",
                       "a user callback is invoked after the error path")
     ctx.counts[rule] = n_internal + n_adapter + n3 + n5
-    if n_internal < 2:
-        ctx.unverifiable(rule + "1", "floor", "-", "expected 2 try-concurrent per-item bodies, found %d" % n_internal)
-    if n_adapter < 4:
-        ctx.unverifiable(rule + "4", "floor", "-", "expected 4 control-wrapper adapters, found %d" % n_adapter)
-    if n3 < 2:
-        ctx.unverifiable(rule + "3", "floor", "-", "expected 2 RESULT drain sites, found %d" % n3)
-    if n5 < 2:
-        ctx.unverifiable(rule + "5", "floor", "-", "expected 2 try-fold step bodies, found %d" % n5)
+    ctx.entry_floor(rule + "1", rule + "1", ("try_for_each",), "per-item body sending the user's error on the RESULT channel")
+    ctx.entry_floor(rule + "3", rule + "3", ("try_for_each",), "drain of the RESULT channel")
+    ctx.entry_floor(rule + "5", rule + "5", ("try_fold",), "try-fold step body")
+    # control wrappers: each must reach an adapter
+    for e in m.entries:
+        if "ControlFlow<" in e["output"]["s"]:
+            cov = ctx.__dict__.get("_cover", {}).get(rule + "4", set())
+            if not (m.reach(e["id"]) & cov):
+                ctx.unverifiable(rule + "4", "floor|%s" % e["name"], entry_where(e), "control wrapper reaches no ControlFlow->Result adapter")
 
 
 def F4_adapter(ctx, rule, b):
@@ -513,8 +519,8 @@ def I_rules(ctx, rule="I"):
     # I2: inside the tracking function
     I2(ctx, rule + "2", tb, inc_idx)
     ctx.counts[rule] = n
-    if n < 20:
-        ctx.unverifiable(rule + "1", "floor", "-", "expected >= 20 entry points wired to the interruptibility options, found %d" % n)
+    if n < len(m.entries) or n < 5:
+        ctx.unverifiable(rule + "1", "floor", "-", "only %d of %d entry points were checked for the interruptibility wiring" % (n, len(m.entries)))
 
 
 def I2_rule(ctx, rule="I2"):
@@ -668,8 +674,9 @@ def O_rules(ctx, rule="O"):
         ctx.check(ok and structure_from_setup(ctx, gs), rule + "2", "new-args|%s" % short(b.id), m.where(b, bb),
                   "StreamOutcome::new receives the tracked id vector and the walked structure",
                   "StreamOutcome::new receives processed=%s structure=%s" % ([fmt_src(s) for s in vs][:3], [fmt_src(s) for s in gs][:3]))
-    if len(sites) < 8:
-        ctx.unverifiable(rule + "2", "floor", "-", "expected 8 StreamOutcome::new call sites, found %d" % len(sites))
+    for (b, bb, t) in sites:
+        ctx.cover(rule + "2", b.id)
+    ctx.entry_floor(rule + "2", rule + "2", ("fold", "for_each", "try_fold", "try_for_each"), "StreamOutcome::new call")
     # O2: body of new
     agg = None
     for bb, si, s in newb.stmts():
@@ -753,13 +760,13 @@ def O_rules(ctx, rule="O"):
             if fb.is_test_body(b):
                 continue
             n3 += 1
+            ctx.cover(rule + "3", b.id)
             srcs = fl.sources_operand(b, t["args"][0], (), "taint")
             has_nc = any(s.kind == "alloc" and s[4] in NODE_COUNT_FNS for s in srcs)
             ctx.check(has_nc, rule + "3", "remaining-arg|%s" % short(b.id), m.where(b, bb),
                       "the state is derived from the countdown initialised from node_count()",
                       "the state is derived from %s" % [fmt_src(s) for s in srcs][:4])
-        if n3 < 8:
-            ctx.unverifiable(rule + "3", "floor", "-", "expected 8 state-mapping call sites, found %d" % n3)
+        ctx.entry_floor(rule + "3", rule + "3", ("fold", "for_each", "try_fold", "try_for_each"), "call of the state mapping")
     O4(ctx, rule + "4")
 
 
@@ -782,6 +789,7 @@ def O3b(ctx, rule="O3b"):
                 continue
             seen.add(b.id)
             n += 1
+            ctx.cover(rule, b.id)
             # decrement sites: `x -= 1` on a node_count-derived value, or a call to a crate-local helper doing it
             dec_blocks = []
             for bb, si, s_ in b.stmts():
@@ -816,8 +824,7 @@ def O3b(ctx, rule="O3b"):
             ctx.check(paths_ok, rule, "countdown-every-item|%s" % short(b.id), m.where(b, a.into_bb),
                       "after the user future completes, every path to the end of the per-item body decrements the countdown of remaining functions",
                       "a path from the completion of the user future to the end of the per-item body skips the countdown decrement (decrement blocks %s): the outcome state becomes Interrupted although the function was processed" % dec_blocks)
-    if n < 8:
-        ctx.unverifiable(rule, "floor", "-", "expected 8 per-item bodies, found %d" % n)
+    ctx.entry_floor(rule, rule, ("fold", "for_each", "try_fold", "try_for_each"), "per-item body awaiting the user future")
 
 
 def O4(ctx, rule="O4"):
@@ -871,8 +878,8 @@ def O4(ctx, rule="O4"):
         ctx.check(okc and okb and kinds == {"err", "not-finished"}, rule, "control-map|%s" % e["name"], where,
                   "Ok + Finished -> Continue(outcome); Ok + other state -> Break((outcome, [])); Err(x) -> Break(x)",
                   "control mapping differs: Continue sites %s, Break kinds %s" % ([c[0] for c in conts], sorted(kinds)))
-    if n4 < 4:
-        ctx.unverifiable(rule, "floor", "-", "expected 4 control wrappers, found %d" % n4)
+    if n4 < 1:
+        ctx.unverifiable(rule, "floor", "-", "no control wrapper (entry point returning ControlFlow) found")
 
 
 # ---------------------------------------------------------------------------
@@ -976,8 +983,8 @@ def Q_rules(ctx, rule="Q"):
                   "%s returns %s() of self.graph, unfiltered and unreordered" % (nm, fn_),
                   "%s: source calls %d, adaptors %s, on self.graph: %s" % (nm, len(srcc), sel, g_ok))
     ctx.counts[rule] = n
-    if n < 11:
-        ctx.unverifiable(rule + "1", "floor", "-", "expected 8 topological + 3 insertion-order APIs, found %d" % n)
+    if n < 4:
+        ctx.unverifiable(rule + "1", "floor", "-", "expected the sequential iteration APIs, found only %d" % n)
 
 
 # ---------------------------------------------------------------------------
